@@ -190,43 +190,157 @@ func OpTable(w *load.World, c *core.Collector) {
 		}
 		return "?" + strings.Join(o.Keys(), ",")
 	}
-	// evaluate a phi under an operator: follow edges coming from the operator's region
-	var evalFor func(v ssa.Value, region map[*ssa.BasicBlock]bool, depth int) string
-	evalFor = func(v ssa.Value, region map[*ssa.BasicBlock]bool, depth int) string {
-		phi, ok := v.(*ssa.Phi)
-		if !ok || depth > 6 {
-			return describe(v)
+	// Partial evaluation of Search with the operator fixed to one constant: branches on the
+	// operator are decided, error branches of fallible calls are not taken, phis are resolved by
+	// the edge actually travelled. What reaches RangeScan on that run is what the operator scans.
+	type triple [3]string
+	runFor := func(opConst string) (map[triple]bool, string) {
+		results := map[triple]bool{}
+		note := ""
+		type frame struct {
+			b, pred *ssa.BasicBlock
+			choice  map[*ssa.Phi]ssa.Value
+			steps   int
 		}
-		vals := map[string]bool{}
-		for i, p := range phi.Block().Preds {
-			if region[p] {
-				vals[evalFor(phi.Edges[i], region, depth+1)] = true
-			}
-		}
-		if len(vals) == 0 {
-			// the region does not feed this phi directly: the value set before the switch flows through
-			for i := range phi.Block().Preds {
-				e := phi.Edges[i]
-				if _, isPhi := e.(*ssa.Phi); !isPhi {
-					vals[describe(e)] = true
+		var resolve func(v ssa.Value, choice map[*ssa.Phi]ssa.Value, depth int) ssa.Value
+		resolve = func(v ssa.Value, choice map[*ssa.Phi]ssa.Value, depth int) ssa.Value {
+			if phi, ok := v.(*ssa.Phi); ok && depth < 8 {
+				if e, ok := choice[phi]; ok {
+					return resolve(e, choice, depth+1)
 				}
 			}
-			if len(vals) > 1 {
-				// prefer the initial (zero) value
-				if vals["nil"] {
-					return "nil"
+			return v
+		}
+		var evalBool func(v ssa.Value, choice map[*ssa.Phi]ssa.Value, depth int) (bool, bool)
+		evalBool = func(v ssa.Value, choice map[*ssa.Phi]ssa.Value, depth int) (bool, bool) {
+			v = resolve(v, choice, 0)
+			if b, ok := ssax.ConstBool(v); ok {
+				return b, true
+			}
+			if depth > 6 {
+				return false, false
+			}
+			switch x := v.(type) {
+			case *ssa.UnOp:
+				if x.Op == token.NOT {
+					if b, ok := evalBool(x.X, choice, depth+1); ok {
+						return !b, true
+					}
 				}
-				if vals["false"] {
-					return "false"
+			case *ssa.BinOp:
+				if x.Op == token.EQL || x.Op == token.NEQ {
+					l, r := resolve(x.X, choice, 0), resolve(x.Y, choice, 0)
+					var cs string
+					var ok bool
+					switch {
+					case l == ssa.Value(opParam):
+						cs, ok = ssax.ConstString(r)
+					case r == ssa.Value(opParam):
+						cs, ok = ssax.ConstString(l)
+					}
+					if ok {
+						return (cs == opConst) == (x.Op == token.EQL), true
+					}
 				}
 			}
+			return false, false
 		}
-		var ks []string
-		for k := range vals {
-			ks = append(ks, k)
+		errorOnly := func(b *ssa.BasicBlock) bool {
+			// the block (possibly after straight-line code) returns a non-nil error
+			for i := 0; i < 4 && b != nil; i++ {
+				last := b.Instrs[len(b.Instrs)-1]
+				if r, ok := last.(*ssa.Return); ok {
+					for j := range r.Results {
+						if isErrorType(r.Results[j].Type()) && nonNilError(ssax.ReturnOperand(r, j), b) {
+							return true
+						}
+					}
+					return false
+				}
+				if _, ok := last.(*ssa.Jump); ok {
+					b = b.Succs[0]
+					continue
+				}
+				return false
+			}
+			return false
 		}
-		sort.Strings(ks)
-		return strings.Join(ks, "|")
+		work := []frame{{f.Blocks[0], nil, map[*ssa.Phi]ssa.Value{}, 0}}
+		for len(work) > 0 {
+			fr := work[len(work)-1]
+			work = work[:len(work)-1]
+			if fr.steps > 200 {
+				note = "step limit"
+				continue
+			}
+			choice := fr.choice
+			stop := false
+			for _, in := range fr.b.Instrs {
+				switch x := in.(type) {
+				case *ssa.Phi:
+					for i, p := range fr.b.Preds {
+						if p == fr.pred {
+							choice[x] = x.Edges[i]
+						}
+					}
+				case *ssa.Call:
+					if x == scan {
+						var t triple
+						for k := 0; k < 3; k++ {
+							v := resolve(x.Call.Args[k], choice, 0)
+							if k == 2 {
+								if b, ok := evalBool(v, choice, 0); ok {
+									t[k] = fmt.Sprint(b)
+									continue
+								}
+							}
+							t[k] = describe(v)
+						}
+						results[t] = true
+						stop = true
+					}
+				case *ssa.Return:
+					stop = true
+				}
+				if stop {
+					break
+				}
+			}
+			if stop {
+				continue
+			}
+			switch last := fr.b.Instrs[len(fr.b.Instrs)-1].(type) {
+			case *ssa.If:
+				next := func(s int) {
+					nc := map[*ssa.Phi]ssa.Value{}
+					for k, v := range choice {
+						nc[k] = v
+					}
+					work = append(work, frame{fr.b.Succs[s], fr.b, nc, fr.steps + 1})
+				}
+				if b, ok := evalBool(last.Cond, choice, 0); ok {
+					if b {
+						next(0)
+					} else {
+						next(1)
+					}
+					break
+				}
+				e0, e1 := errorOnly(fr.b.Succs[0]), errorOnly(fr.b.Succs[1])
+				switch {
+				case e0 && !e1:
+					next(1)
+				case e1 && !e0:
+					next(0)
+				default:
+					next(0)
+					next(1)
+				}
+			case *ssa.Jump:
+				work = append(work, frame{fr.b.Succs[0], fr.b, choice, fr.steps + 1})
+			}
+		}
+		return results, note
 	}
 	want := map[string][3]string{
 		"greaterThan":         {"key(value)", "nil", "false"},
@@ -241,17 +355,25 @@ func OpTable(w *load.World, c *core.Collector) {
 	}
 	sort.Strings(ops)
 	for _, op := range ops {
-		region, ok := regions[op]
-		if !ok || len(region) == 0 {
-			c.Add("OPTABLE", "range:"+op, core.Violation, w.Position(f.Pos()), "the index search has no case for operator "+op, props...)
+		res, note := runFor(op)
+		if len(res) == 0 {
+			c.Add("OPTABLE", "range:"+op, core.Violation, w.Position(f.Pos()), "with operator "+op+" the index search never reaches a range scan "+note, props...)
 			continue
 		}
-		got := [3]string{evalFor(scan.Call.Args[0], region, 0), evalFor(scan.Call.Args[1], region, 0), evalFor(scan.Call.Args[2], region, 0)}
-		if got == want[op] {
-			c.Add("OPTABLE", "range:"+op, core.OK, w.At(scan), fmt.Sprintf("start=%s end=%s inclusive=%s", got[0], got[1], got[2]), props...)
+		okAll := true
+		var gots []string
+		for t := range res {
+			gots = append(gots, fmt.Sprintf("start=%s end=%s inclusive=%s", t[0], t[1], t[2]))
+			if [3]string(t) != want[op] {
+				okAll = false
+			}
+		}
+		sort.Strings(gots)
+		if okAll {
+			c.Add("OPTABLE", "range:"+op, core.OK, w.At(scan), gots[0], props...)
 		} else {
 			c.Add("OPTABLE", "range:"+op, core.Violation, w.At(scan),
-				fmt.Sprintf("operator %s scans start=%s end=%s inclusive=%s, its meaning is start=%s end=%s inclusive=%s", op, got[0], got[1], got[2], want[op][0], want[op][1], want[op][2]), props...)
+				fmt.Sprintf("operator %s scans %s, its meaning is start=%s end=%s inclusive=%s", op, strings.Join(gots, " or "), want[op][0], want[op][1], want[op][2]), props...)
 		}
 	}
 	// equals / startsWith / notEquals use exactly key(value)
